@@ -83,6 +83,8 @@ type Exec struct {
 	warnings    []string
 	retCount    int
 	oldMem      *State // memory snapshot used for old(*p) while evaluating a callee contract
+	cutsDone    map[*CutSpec]bool
+	cutFacts    []int
 	arrayCells  map[*Cell]int
 	arrayElem   map[*Cell]MT
 }
@@ -452,7 +454,7 @@ func newExec(w *World, fn *ssa.Function, c *Contract, split *int) *Exec {
 		loops: map[*ssa.BasicBlock]*loopInfo{}, backEdge: map[[2]*ssa.BasicBlock]bool{},
 		kindCount: map[string]int{}, callCount: map[string]int{}, srcLines: map[string][]string{},
 		usedWaivers: map[*Waiver]bool{}, splitVal: split,
-		arrayCells: map[*Cell]int{}, arrayElem: map[*Cell]MT{}}
+		arrayCells: map[*Cell]int{}, arrayElem: map[*Cell]MT{}, cutsDone: map[*CutSpec]bool{}}
 	x.vc = newVC(x.name, mode)
 	if split != nil {
 		x.suffix = fmt.Sprintf("/%s=%d", c.Split.Var, *split)
@@ -719,14 +721,39 @@ func (x *Exec) evalBool(c *Clause, env *Env) (t T) {
 
 // ---------------------------------------------------------------- axiom instances for rs
 
-var rsEqSteps = []int{1, 2, 3, 4, 8, 19}
+var rsEqSteps = []int{1, 2, 3, 4, 5, 6, 7, 8, 9, 10, 11, 12, 13, 14, 15, 16, 17, 18, 19}
+
+func allRel(t T, rel map[string]bool) bool {
+	for _, m := range symRe.FindAllString(t.S, -1) {
+		if !rel[m] {
+			return false
+		}
+	}
+	return true
+}
 
 func (x *Exec) attachAxioms(o *Obligation) {
-	o.Extra = append(o.Extra, rsInstances(x.rsTerms)...)
-	if x.th.Mode() == "int" {
-		for _, d := range x.decTerms {
-			o.Extra = append(o.Extra, x.w.exportedInstances(d[0], d[1])...)
+	rsT := append([][2]T{}, x.rsTerms...)
+	decT := append([][2]T{}, x.decTerms...)
+	mode := x.th.Mode()
+	w := x.w
+	o.ExtraFn = func(rel map[string]bool) []string {
+		var out []string
+		var rs [][2]T
+		for _, t := range rsT {
+			if allRel(t[0], rel) && allRel(t[1], rel) {
+				rs = append(rs, t)
+			}
 		}
+		out = append(out, rsInstances(rs)...)
+		if mode == "int" {
+			for _, d := range decT {
+				if allRel(d[0], rel) && allRel(d[1], rel) {
+					out = append(out, w.exportedInstances(d[0], d[1])...)
+				}
+			}
+		}
+		return out
 	}
 }
 
@@ -748,6 +775,11 @@ func rsInstances(terms [][2]T) []string {
 		out = append(out, fmt.Sprintf("(assert (and (=> (> %s 0.0) (> (rs %s %s) 0.0)) (=> (= %s 0.0) (= (rs %s %s) 0.0)) (=> (< %s 0.0) (< (rs %s %s) 0.0))))",
 			a[0].S, a[0].S, a[1].S, a[0].S, a[0].S, a[1].S, a[0].S, a[0].S, a[1].S))
 		for j, b := range uniq {
+			if i < j && a[0].S != b[0].S {
+				// order is preserved by scaling: v1 < v2 <=> rs(v1,e) < rs(v2,e)
+				out = append(out, fmt.Sprintf("(assert (=> (= %s %s) (and (= (< %s %s) (< (rs %s %s) (rs %s %s))) (= (= %s %s) (= (rs %s %s) (rs %s %s))))))",
+					a[1].S, b[1].S, a[0].S, b[0].S, a[0].S, a[1].S, b[0].S, b[1].S, a[0].S, b[0].S, a[0].S, a[1].S, b[0].S, b[1].S))
+			}
 			if i == j || a[0].S != b[0].S {
 				continue
 			}
@@ -760,7 +792,7 @@ func rsInstances(terms [][2]T) []string {
 				cs = append(cs, fmt.Sprintf("(=> (= %s (+ %s %d)) (= (rs %s %s) (* %s.0 (rs %s %s))))", b[1].S, a[1].S, k, a[0].S, a[1].S, pow10(k).String(), b[0].S, b[1].S))
 			}
 			// monotonic (v >= 0): b.e >= a.e + k ==> rs(v,b.e)*10^k <= rs(v,a.e)
-			for _, k := range []int{0, 1, 36} {
+			for _, k := range []int{0, 1, 20, 36, 40} {
 				cs = append(cs, fmt.Sprintf("(=> (and (>= %s 0.0) (>= %s (+ %s %d))) (<= (* %s.0 (rs %s %s)) (rs %s %s)))", a[0].S, b[1].S, a[1].S, k, pow10(k).String(), b[0].S, b[1].S, a[0].S, a[1].S))
 			}
 			out = append(out, "(assert (and "+strings.Join(cs, " ")+"))")
